@@ -13,11 +13,21 @@ def main():
     for mf in sorted((ROOT / "seeded").glob("*/*/meta.json")):
         m = json.loads(mf.read_text())
         v = m.get("verified", {})
-        caught = "caught" if v.get("check_violation") else "**missed**"
-        says = (v.get("check_says") or "").splitlines()
-        says = says[0][:160].replace("|", "\\|") if says else ""
-        rows.append(f"| {mf.parent.parent.name}/{mf.parent.name} | {m.get('breaks', '')[:200].replace('|', '/')} | {m.get('needs_to_manifest', '')[:160].replace('|', '/')} | "
-                    f"{caught} | {m.get('check_result', '')[:200].replace('|', '/')} |")
+        caught = "caught" if v.get("check_violation") else ("patch no longer applies" if not v.get("applies", True) else
+                                                            "no longer a defect (demo passes)" if v.get("kept") is False else "**missed**")
+        before = (v.get("check_says") or "").split("VIOLATION")[0].rstrip().splitlines()
+        says = ("… " + before[-1].strip()[-230:]).replace("|", "/") if before and v.get("check_violation") else ""
+        breaks = m.get("breaks", "")
+        if not breaks or breaks.lstrip().startswith(("```", "cd /tmp", "-", "+", "*")):
+            # rounds 2+: the sub-agent's notes.md — its title line, else its first prose line
+            nf = mf.parent / "notes.md"
+            lines = [l.strip() for l in nf.read_text().splitlines()] if nf.exists() else []
+            title = next((l.lstrip("# ").strip() for l in lines if l.startswith("#") and len(l) > 12), "")
+            prose = next((l for l in lines if l and not l.startswith(("#", "```", "|", "-", "*", "cd ", "$"))), "")
+            breaks = title if len(title) > 25 else (title + " — " + prose if title else prose)
+        how = m.get("check_result", "") or says
+        rows.append(f"| {mf.parent.parent.name}/{mf.parent.name} | {breaks[:240].replace('|', '/')} | {m.get('needs_to_manifest', '')[:160].replace('|', '/')} | "
+                    f"{caught} | {how[:260].replace('|', '/')} |")
     known, fixed = [], []
     for line in (ROOT / "KNOWN_FINDINGS.txt").read_text().splitlines():
         m = re.match(r"known:\s+property=(\S+)\s+key=(\S+)\s*(?:witness=\S+\s*)?::\s*(.*)", line)
@@ -44,7 +54,7 @@ def main():
     gen = ["<!-- GEN:BEGIN -->", "", "## 8a. As built, per property (generated from harness/claims and the last evidence files)", "",
            "| id | claim | theorems checked | correspondence cases (tier, wall) | as-built note | theorems |", "|---|---|---|---|---|---|", *built, "", "## 9. Seeded changes (independent sub-agents, property text only) and what catches them", "",
            "Each change was confirmed in a scratch worktree (`harness/seeded.py`: unedited suite still 196 passed; demo fails with / passes "
-           "without the change) and then applied to `/repo`, the property's quick check run, and undone.", "",
+           "without the change) and then the property's quick check was run with the change applied — to `/repo` itself (applied, checked, undone), or, where meta.json says `check_against`, to a scratch worktree handed to the check through `VERIF_REPO` while `/repo` was in use. The last column is the first line the check reported (or a note on what was strengthened).", "",
            "| seeded | change | needs | quick check | how it is caught / what was strengthened |", "|---|---|---|---|---|", *rows, "",
            "## 10. Findings", "", "### Repaired (`fix:` commits in /repo)", "", "| property | key | commit | what failed |", "|---|---|---|---|", *fixed, "",
            "### Recorded (`known:`; the check prints KNOWN-FINDING and exits 0)", "", "| property | key | what fails |", "|---|---|---|", *known, "",
